@@ -1,5 +1,5 @@
 (* C15 -- Concurrent use of the in-memory FS is race-free and atomic per operation.
-   Model: Conc/Conc.v -- Mkdir, Remove and Stat of keyvalue.FS as resumable programs whose atomic
+   Model: Conc/Conc.v -- Mkdir, Remove, Stat, Chmod and the Rename of a non-directory of keyvalue.FS as resumable programs whose atomic
    steps are store transactions (and the lazy directory listing); [explore] enumerates EVERY
    interleaving, [explore_seq] every sequential order of whole operations.  The outcome sets of the
    model are compared with those of the real code (all schedules forced on it) on every run.
@@ -62,8 +62,8 @@ Print Assumptions C15_sequential_order_exists.
    ("d" and "dx") is apart from it. *)
 Theorem C15_apart_paths_are_unrelated : forall progs,
   (forall ops, In ops progs -> paths_ok ops) ->
-  (forall i j pi pj oi oj, i <> j -> nth_error progs i = Some pi -> nth_error progs j = Some pj ->
-     In oi pi -> In oj pj -> apart (cop_path oi) (cop_path oj)) ->
+  (forall i j pi pj oi oj a b, i <> j -> nth_error progs i = Some pi -> nth_error progs j = Some pj ->
+     In oi pi -> In oj pj -> In a (cop_paths oi) -> In b (cop_paths oj) -> apart a b) ->
   unrelated_progs progs.
 Proof. exact apart_unrelated. Qed.
 Print Assumptions C15_apart_paths_are_unrelated.
